@@ -88,10 +88,14 @@ class Eval:
         self.cells = {}                   # (idx, field) -> value
         self.read_in = set()              # atoms read at entry
         self.where = {}                   # output name -> node of the last store
+        self.consts = {}                  # did -> value of float locals defined once from penalties only
+        self.cond_resolver = None         # cond node -> True / False / None (border tests decided by the situation)
+        self.call_hook = None             # call node -> value (helpers walked in place)
 
     def copy(self):
         e = Eval(self.F, self.cell_base, self.idx_canon)
         e.loc, e.names, e.cells, e.read_in = dict(self.loc), dict(self.names), dict(self.cells), set(self.read_in)
+        e.where = dict(self.where)
         return e
 
     # ---------------------------------------------------------------- expressions
@@ -107,6 +111,10 @@ class Eval:
                 if len(cls) == 1:
                     return cls.pop()
         return None
+
+    def penalty_class_of_def(self, init):
+        """a declaration `const float gpo = m->ap->gpo;` / `open = ap->gpo * sip`: the local is a penalty scalar"""
+        return any(m.d.get("field") in PEN_FIELDS for m in init.find("MemberExpr")) and init.strip(casts=True).k != "ConditionalOperator"
 
     def is_float(self, n):
         return n.ty in ("float", "double", "const float", "const double")
@@ -125,9 +133,15 @@ class Eval:
             if any("FLT_MAX" in m for m in o.mac) or "FLT_MAX" in o.text():
                 return NEG_INF
             return vneg(self.ev(o))
+        if k == "CallExpr" and self.call_hook is not None:
+            return self.call_hook(n)
         if k == "ConditionalOperator":
             c = n.child("cond").strip(casts=True)
             t, e = n.child("then"), n.child("else")
+            if self.cond_resolver is not None:
+                r = self.cond_resolver(n.child("cond"))
+                if r is not None:
+                    return self.ev(t if r else e)
             if c.k == "BinaryOperator" and c.d["op"] in (">", ">=", "<", "<="):
                 l, r = c.kids[0], c.kids[1]
                 nt, ne, nl, nr = (x.strip(casts=True).text().replace(" ", "") for x in (t, e, l, r))
@@ -150,6 +164,8 @@ class Eval:
             did = n.d.get("did")
             if did in self.loc:
                 return self.loc[did]
+            if did in self.consts:
+                return self.consts[did]
             if self.is_float(n) and n.d.get("dk") == "Var" and not n.d.get("g"):
                 a = "%s@in" % n.d["name"]
                 self.read_in.add(a)
@@ -185,7 +201,7 @@ class Eval:
     # ---------------------------------------------------------------- statements
     def assign(self, lhs, val):
         l = lhs.strip(casts=True)
-        if l.k == "DeclRefExpr" and l.d.get("dk") == "Var" and not l.d.get("g"):
+        if l.k == "DeclRefExpr" and l.d.get("dk") in ("Var", "Parm") and not l.d.get("g"):
             self.loc[l.d["did"]] = val
             self.names[l.d["did"]] = l.d["name"]
             self.where[l.d["name"]] = lhs
